@@ -112,6 +112,7 @@ func gen(c *lib.Ctx) {
 		genC03SCION(c)
 	case "c05":
 		genC05IP(c)
+		genWrapIP(c)
 		genF13(c)
 		genC05SCION(c)
 	default:
